@@ -21,13 +21,18 @@ PARSERS = {
 }
 
 
-def _retype_for_coercion(rng, fs, col):
+def _retype_for_coercion(rng, fs, col, numeric_only=False):
     """Give the column another physical type from which coercion to the
-    declared dtype is exact."""
+    declared dtype is exact.  numeric_only: only casts whose meaning does not
+    depend on the engine (int <-> float <-> numeric string, int -> str)."""
     d = fs["dtype"]
     vals = col["values"]
+    if numeric_only and d in ("datetime", "bool"):
+        return
     if d == "int64" and all(v is not None for v in vals):
         how = rng.choice(["str", "float", "Int64"])
+        if how == "Int64" and numeric_only:
+            how = "float"
         if how == "str":
             col["phys"], col["values"] = "object", [str(v) for v in vals]
         elif how == "float":
@@ -94,7 +99,7 @@ def add_parse_options(rng, spec, table, *, neutral=False, allow_drop=True):
                 fs["coerce"] = True
                 opts.append("column_coerce")
             if col is not None and rng.random() < 0.75:
-                _retype_for_coercion(rng, fs, col)
+                _retype_for_coercion(rng, fs, col, numeric_only=neutral)
         if col is not None and fs["dtype"] in ("float64", "str", "datetime") \
                 and rng.random() < 0.3 and col["values"] \
                 and col["phys"] == G.PHYS_OF[fs["dtype"]] and not fs["unique"]:
